@@ -7,6 +7,7 @@ Open Scope Z_scope.
 
 Record case := mkCase {
   c_m : nat;
+  c_quiet : nat;                 (* no block is observed after the first c_quiet operations (status only) *)
   c_uni : list key;              (* Get is asked for each *)
   c_q : list key;                (* split / subset / prefix queries for all (pairs of) these *)
   c_ranges : list (key * key);   (* ranged forward + reverse iteration *)
@@ -44,18 +45,21 @@ Definition block (c : case) (st : store) : list Z :=
                       flat_iter (rev_iterate st (fst be) (Some (snd be)))) (c_ranges c) ++
   flat_dump st.
 
-Fixpoint steps (c : case) (st : store) (ops : list op) : list Z :=
+Fixpoint steps (c : case) (st : store) (quiet : nat) (ops : list op) : list Z :=
   match ops with
   | [] => []
   | o :: r => match apply_op (c_m c) st o with
-              | Ok st' => 0 :: block c st' ++ steps c st' r
+              | Ok st' => match quiet with
+                          | O => 0 :: block c st' ++ steps c st' O r
+                          | S q => 0 :: steps c st' q r
+                          end
               | Err e => [err_code e]               (* the history ends at the first panicking mutation *)
               end
   end.
 
 Definition model_obs (c : case) : list Z :=
   match new_tree (c_m c) with
-  | Ok st => 0 :: block c st ++ steps c st (c_ops c)
+  | Ok st => 0 :: block c st ++ steps c st (c_quiet c) (c_ops c)
   | Err e => [err_code e]
   end.
 
